@@ -4,7 +4,7 @@
 From Coq Require Import ZArith List Bool Arith Sorted Permutation.
 From Centro Require Import Base.SortC18 Model.VecC18 Model.RankC18 Model.MedianC18 Model.IndexesC18 Spec.SpecC18
   Proofs.RankC18Proofs Proofs.BinsC18Proofs Proofs.CheckC18 Proofs.MedianC18Proofs Proofs.ModeC18Proofs
-  Proofs.IndexesC18Proofs Proofs.PairsC18Proofs.
+  Proofs.IndexesC18Proofs Proofs.PairsC18Proofs Model.AllPairsC18 Proofs.AllPairsC18Proofs Proofs.IndexesAddrC18.
 Import ListNotations.
 Local Open Scope nat_scope.
 
@@ -99,3 +99,34 @@ Theorem C18_pairwise_model_ref : forall i j : list Z, length i = length j ->
   combine (combine di d1) d2 = pairwise_ref i j.
 Proof. exact pairwise_model_ref. Qed.
 Print Assumptions C18_pairwise_model_ref.
+
+(* index.all_pairs(n): the model (mgrid, diagonal mask, three-key lexsort, gather) is the
+   documented enumeration; it holds every ordered non-identity pair exactly once; and its first
+   m(m-1) rows are the pairs of the first m things. *)
+Theorem C18_all_pairs_model_ref : forall n, all_pairs n = all_pairs_ref n.
+Proof. exact all_pairs_model_ref. Qed.
+Print Assumptions C18_all_pairs_model_ref.
+
+Theorem C18_all_pairs_complete : forall n,
+  NoDup (all_pairs_ref n) /\ forall a b, In (a, b) (all_pairs_ref n) <-> (a < n /\ b < n /\ a <> b).
+Proof. exact all_pairs_complete. Qed.
+Print Assumptions C18_all_pairs_complete.
+
+Theorem C18_all_pairs_prefix : forall m n, m <= n ->
+  firstn (m * (m - 1)) (all_pairs_ref n) = all_pairs_ref m.
+Proof. exact all_pairs_prefix. Qed.
+Print Assumptions C18_all_pairs_prefix.
+
+(* Indexes, as it is used (weights[fwd_idx[rev_idx] + idx[0]]): every position t belongs to
+   object rev_idx[t], its coordinates idx[:,t] lie inside that object's sub-array, and
+   t = fwd_idx[object] + row-major offset of the coordinates. *)
+Theorem C18_indexes_address : forall counts : list (list nat),
+  counts <> [] -> (forall row, In row counts -> length row = length (hd [] counts)) ->
+  let '(len, fwd, rev, idx) := indexes counts in
+  forall t, t < len ->
+    let o := getn rev t in
+    o < length (hd [] counts) /\
+    (forall d, d < length counts -> getn (nth d idx []) t < getn (nth d counts []) o) /\
+    getn fwd o + rm_offset (column o counts) (map (fun row => getn row t) idx) = t.
+Proof. exact indexes_address. Qed.
+Print Assumptions C18_indexes_address.
